@@ -246,7 +246,7 @@ def check(ctx):
     alloc = ctx.index.get_class(K.SCHED, 'Allocation')
     ok = False
     where = None
-    for f in alloc.methods.values():
+    for f in alloc.live_methods():
         for sub in K.walk_no_nested(f.node):
             if isinstance(sub, ast.Call) and \
                     K.callee_text(sub) == 'sorted':
